@@ -138,6 +138,39 @@ def oracle(case, seed):
                 fails.append("evaluation %d of the same lens object at the same point and seed gives %r, the first gave %r (prior list %r)"
                              % (rep, again, o1["value"], case["prior_list"]))
                 break
+    # ... and also after the same kind of object was evaluated at a point where the lens realises ANOTHER set of parameters
+    # (without anisotropy sampling the anisotropy parameters are realised exactly when the caller supplies them): which
+    # priors apply is decided by the parameters of THIS evaluation
+    if "value" in o1 and not o1.get("complex") and not case["cfg"].get("anisotropy_sampling"):
+        c1 = with_prior(case, case["prior_list"])
+        twin = copy.deepcopy(c1["hyper"])
+        kk = twin.setdefault("kwargs_kin", {})
+        if "a_ani" in kk or "beta_inf" in kk:
+            kk.pop("a_ani", None)
+            kk.pop("beta_inf", None)
+        else:
+            kk["a_ani"] = 1.0
+        try:
+            lens2 = lc.make_lens(c1["ltype"], c1["cfg"], c1["data"])
+            np.random.seed(seed + 1)
+            with np.errstate(all="ignore"):
+                lens2.hyper_param_likelihood(c1["ddt"], c1["dd"], c1["dlum"], beta_dsp=c1["beta"], **twin)
+            ok_twin = True
+        except Exception:  # noqa  - the twin itself is not under test
+            ok_twin = False
+        if ok_twin:
+            np.random.seed(seed)
+            try:
+                with np.errstate(all="ignore"):
+                    after = np.squeeze(lens2.hyper_param_likelihood(c1["ddt"], c1["dd"], c1["dlum"], beta_dsp=c1["beta"], **copy.deepcopy(c1["hyper"])))
+                after = float(after.real if np.iscomplexobj(after) else after)
+                if not (after == o1["value"] or (math.isnan(after) and math.isnan(o1["value"]))):
+                    fails.append("a lens object first evaluated with another set of realised parameters (anisotropy parameters %s) gives %r at "
+                                 "the point, a fresh object %r under the same seed (prior list %r)"
+                                 % ("withheld" if "a_ani" not in kk else "supplied", after, o1["value"], case["prior_list"]))
+            except Exception as e:  # noqa
+                fails.append("a lens object first evaluated with another set of realised parameters raised %s at the point; a fresh object "
+                             "evaluates it (prior list %r)" % (err_enum(e), case["prior_list"]))
     # the data likelihood must see the same arguments
     for d0, d1 in zip(r0.data, r1.data):
         if lc.canon_data_call(*d0[:2]) != lc.canon_data_call(*d1[:2]):
